@@ -33,7 +33,7 @@ class _HashableDict(object):
 
 class _HashableList(object):
     def __init__(self, obj):
-        self.values = tuple(obj)
+        self.values = tuple(_hashable(x) for x in obj)
         self.hash = hash((_HashableList,) + self.values)
 
     def __hash__(self):
